@@ -40,8 +40,8 @@ def generate(seed, tier="quick"):
     rng = sub(seed, "program")
     prof = V.draw_profile(sub(seed, "profile"), max_depth=2)
     driver = "plugin" if sub(seed, "driver").random() < 0.2 else "inline"
-    if driver != "plugin":
-        prof.special = [s for s in prof.special if s != "norepr"]
+    if sub(seed, "norepr").random() < 0.4 and "norepr" not in prof.special:
+        prof.special.append("norepr")  # needs the inserted HasRepr import
     prog = W.gen_program(rng, prof, {"prev": ["none", "same", "other", "edit", "edit", "slack", "wrong", "subset", "superset"], "n_files": (1, 3), "n_sites": (1, 4),
                                      "n_tests": (1, 3), "styles": ["assert", "rec"], "hand": 0.6, "layout": False, "idle": 0.15})
     lr = sub(seed, "layout")
